@@ -129,7 +129,7 @@ struct stub_integrand
             e.dvk = V_FINITE;
             if (dist_kinds > 0)
             {
-                e.dx = dist_x_symbolic ? h->input("dist_x", -1.0, 2.0) : r.coords.at(0);
+                e.dx = dist_x_symbolic ? h->input("dist_x", -1.0, 2.0) : T(0.25);
                 e.dv = make_value<T>(*h, "dist_v", dist_kinds == 1 ? 1 : 5, false, &e.dvk);
             }
             it = tab->f.emplace(key, e).first;
